@@ -2144,7 +2144,17 @@ class Engine:
         elif isinstance(t, ast.Subscript):
             obj = self.force(self.eval(t.value, env))
             if isinstance(t.slice, ast.Slice):
-                raise Unsupported("slice assignment")
+                # list[a:b] = iterable (contiguous slices of lists with concrete bounds)
+                if not isinstance(obj, SList) or t.slice.step is not None:
+                    raise Unsupported("slice assignment on %s" % type(obj).__name__)
+                lo = self.eval(t.slice.lower, env) if t.slice.lower is not None else None
+                hi = self.eval(t.slice.upper, env) if t.slice.upper is not None else None
+                a, b = self.slice_bounds(len(obj.items), lo, hi, None)
+                if b < a:
+                    b = a
+                new_items = self.iterate(self.force(v))
+                obj.items[a:b] = list(new_items)
+                return
             idx = self.eval(t.slice, env)
             self.setitem(obj, idx, v)
         elif isinstance(t, ast.Attribute):
